@@ -250,7 +250,12 @@ func (o *objectGoMapReflect) defineOwnPropertyStr(name unistring.String, descr P
 		return false
 	}
 
-	return o._put(o.strToKey(name.String(), throw), descr.Value, throw)
+	key := o.strToKey(name.String(), throw)
+	if descr.Value == nil && key.IsValid() && o.fieldsValue.MapIndex(key).IsValid() {
+		// nothing to change: the attributes have been checked and there is no new value
+		return true
+	}
+	return o._put(key, nilSafe(descr.Value), throw)
 }
 
 func (o *objectGoMapReflect) defineOwnPropertyIdx(idx valueInt, descr PropertyDescriptor, throw bool) bool {
@@ -258,7 +263,11 @@ func (o *objectGoMapReflect) defineOwnPropertyIdx(idx valueInt, descr PropertyDe
 		return false
 	}
 
-	return o._put(o.toKey(idx, throw), descr.Value, throw)
+	key := o.toKey(idx, throw)
+	if descr.Value == nil && key.IsValid() && o.fieldsValue.MapIndex(key).IsValid() {
+		return true
+	}
+	return o._put(key, nilSafe(descr.Value), throw)
 }
 
 func (o *objectGoMapReflect) hasOwnPropertyStr(name unistring.String) bool {
